@@ -200,6 +200,35 @@ def record_long_gap(chunk):
     return out
 
 
+def long_text_events():
+    """operands within the limit of a cell whose concatenation is not (or just is): a value or an error value, never an exception"""
+    return [{'n1': a, 'n2': b, 'form': f} for a, b in ((20000, 20000), (32767, 1), (16384, 16383), (30000, 2767), (32767, 32767), (1, 32767))
+            for f in ('cells', 'mixed', 'inspected')]
+
+
+def record_long_text(chunk):
+    L = xl.lib()
+    out = []
+    for e in chunk:
+        t1, t2 = 'x' * e['n1'], 'y' * e['n2']
+        left, right = S.ref(1, 1), (S.ref(1, 2) if e['form'] != 'mixed' else S.strlit('y' * e['n2']))
+        ast = S.bin_('&', left, right)
+        d = {'Sheet1!A1': t1, 'Sheet1!A2': t2, 'Sheet1!B5': S.formula(ast), 'Sheet1!B6': '=ISERROR(B5)'}
+        probe = 'Sheet1!B5'
+        try:
+            ev = L.Evaluator(L.ModelCompiler().read_and_parse_dict(d))
+            if e['form'] == 'inspected':
+                ev.evaluate('Sheet1!B6')
+            res = xl.to_abs(ev.evaluate(probe))
+        except BaseException as ex:      # noqa
+            if isinstance(ex, (KeyboardInterrupt, SystemExit)):
+                raise
+            res = {'t': 'exc', 'cls': type(ex).__name__}
+        out.append({'ast': ast, 'sheet': 'Sheet1', 'names': [], 'res': res, 'addr': probe, 'text': f"=A1&A2 with LEN {e['n1']} and {e['n2']} ({e['form']})",
+                    'cells': [{'sheet': 'Sheet1', 'col': 1, 'row': 1, 'v': xl.to_abs(t1)}, {'sheet': 'Sheet1', 'col': 1, 'row': 2, 'v': xl.to_abs(t2)}]})
+    return out
+
+
 CODES = ['#NULL!', '#DIV/0!', '#VALUE!', '#REF!', '#NAME?', '#NUM!', '#N/A']
 
 
@@ -313,6 +342,12 @@ def run(run):
     lv = evalrec.validate(run, lg, name='longgap', kind='long-gap')
     run.evaluations += len(lg)
     run.notes['long_gap_events'] = dict(lv)
+    lt = [e for part in pool.pmap(record_long_text, long_text_events(), nchunks=6) for e in part]
+    tv = evalrec.validate(run, lt, name='longtext', kind='long-text')
+    run.evaluations += len(lt)
+    run.notes['long_text_events'] = dict(tv)
+    if tv.get('ok', 0) < 3:
+        raise xl.MachineryError(f'long-text events: none within the limit was judged ({dict(tv)})')
     events = driver(run.seed, 3000 if run.tier == 'quick' else 40000)
     recorded = [e for part in pool.pmap(record, events) for e in part]
     run.evaluations += len(recorded)
